@@ -60,7 +60,10 @@ def mk_tape(r, mode, scale=1.0, zero=True, P=None):
     seed = r.getrandbits(48)
     if mode == "cont":
         lo = r.choice([0.0, 0.1, 0.5]) * scale
-        return {"fam": "cont", "lo": lo, "hi": lo + r.choice([0.5, 1.0, 3.0]) * scale, "seed": seed}
+        t = {"fam": "cont", "lo": lo, "hi": lo + r.choice([0.5, 1.0, 3.0]) * scale, "seed": seed}
+        if P is not None and P.get("np_samples") and r.random() < P["np_samples"]:
+            t["np"] = True
+        return t
     q = r.choice([1, 2, 4]) if mode == "lat" else r.choice([10, 10, 20, 100])
     unit = q if mode == "lat" else max(1, q // 4)
     kmax = max(1, int(r.choice([1, 2, 3, 5]) * unit * scale))
@@ -70,6 +73,8 @@ def mk_tape(r, mode, scale=1.0, zero=True, P=None):
         t["ints"] = True       # integral values are returned as Python ints (e.g. Deterministic(2))
     if P is not None and r.random() < P["tdep"]:
         t["tdep"] = r.choice([2, 3])
+    if P is not None and P.get("np_samples") and r.random() < P["np_samples"]:
+        t["np"] = True
     return t
 
 
